@@ -8,6 +8,8 @@ import (
 	"fmt"
 	"net"
 	"net/http"
+	"os"
+	"strconv"
 	"sync"
 	"time"
 
@@ -189,8 +191,8 @@ func (rm *RegistrationManager) ingestRegistration(reg *DecoyRegistration) {
 	}
 	if covert == "" {
 		// We log client IPs for clients attempting to connect to
-		// blocklisted covert addresses.
-		logger.Infof("Dropping reg, malformed or blocklisted covert: %v, %s -> %s", reg.IDString(), reg.GetRegistrationAddress(), reg.Covert)
+		// blocklisted covert addresses, if logging of client IPs is enabled.
+		logger.Infof("Dropping reg, malformed or blocklisted covert: %v, %s -> %s", reg.IDString(), loggableRegistrationAddr(reg), reg.Covert)
 		Stat().AddErrReg()
 		rm.AddErrReg()
 		return
@@ -249,6 +251,16 @@ func (rm *RegistrationManager) ingestRegistration(reg *DecoyRegistration) {
 	Stat().AddReg(reg.DecoyListVersion, reg.RegistrationSource)
 	rm.AddRegStats(reg)
 	handleConnectingTpReg(rm, reg, logger)
+}
+
+// loggableRegistrationAddr returns the registrant's address for a log line if the operator enabled
+// logging of client addresses (LOG_CLIENT_IP, the setting the connection log uses), and the
+// placeholder the connection log prints otherwise.
+func loggableRegistrationAddr(reg *DecoyRegistration) string {
+	if logClientIP, err := strconv.ParseBool(os.Getenv("LOG_CLIENT_IP")); err == nil && logClientIP {
+		return reg.GetRegistrationAddress()
+	}
+	return "_"
 }
 
 func tryShareRegistrationOverAPI(reg *DecoyRegistration, apiEndpoint string, logger *log.Logger) {
